@@ -134,9 +134,19 @@ def handleC05 (c : ValCtx) (v : Verdict) : Verdict :=
   { v with nontrivial := !refs.isEmpty, dist := kinds.foldl bump v.dist }
 
 def handleC10 (c : ValCtx) (v : Verdict) : Verdict :=
-  let v := v.addCorr "C10" (decide (c.model.map Spec.C10.proj = c.out.map Spec.C10.proj))
-  let v := v.addSpec "C10" (((zipById c.stage1 c.out).all fun (a, b) => Spec.C10.holdsFile a b) && c.readOk)
-  let v := v.addAssume "C10" (c.stage1.all fun fr => match fr.ast, groupsOf c fr with
+  let corrOk := decide (c.model.map Spec.C10.proj = c.out.map Spec.C10.proj)
+  -- the SEARCH for a failing input once the correspondence is broken (it changes nothing while model and code agree):
+  -- on the return type of a method that is oneway after propagation and does not return void the code now reports
+  -- FEWER Errors than the unchanged semantics does — among them the one the property demands. This also finds
+  -- inputs on which another Error shares that range (where the count of the statement is not evaluated: `Fresh`).
+  let deficit := !corrOk && (zipById c.model c.out).any fun (m, o) => match m.ast with
+    | some ast => (Spec.methodsOf ast).any fun me =>
+        me.oneway && !decide (me.returnType.kind = .void)
+          && decide (Spec.errorsAt o.diags me.returnType.sym < Spec.errorsAt m.diags me.returnType.sym)
+    | none => false
+  let v := v.addCorr "C10" corrOk
+  let v := v.addSpec "C10" (((zipById c.stage1 c.out).all fun (a, b) => Spec.C10.holdsFile a b) && c.readOk && !deficit)
+  let v := v.addAssume "C10" (deficit || c.stage1.all fun fr => match fr.ast, groupsOf c fr with
     | some ast, some (g, ids) => decide (Props.C10.Fresh ast g ids)
     | _, _ => true)
   let ms := c.stage1.flatMap fun fr => match fr.ast with
